@@ -61,6 +61,28 @@ theorem C01_fast_cert (cfg : Config) (m : MatcherI) (inp : Bytes) (hbin : cfg.bi
     reported (sliceByLine cfg m allCont inp).events = selectedLines cfg.lineTerm.asByte (codeSel cfg m) inp :=
   C01_fast cfg m inp hbin hs hfast (lineSafeCheck_sound hcert)
 
+/-- **fast path, candidates only** (what `verify_on_line` of /repo 4165f41 gives: the matcher never answers
+`Confirmed` on this buffer): the searcher judges every candidate line on its own, exactly as the slow path does, so
+nothing about look-arounds seeing beyond the line is needed any more — only that the candidate finder has no false
+negatives (when it says "nothing" no line from there on matches; a candidate points into a line with no matching line
+before it, or behind the final terminator when no line matches). -/
+theorem C01_fast_verified (cfg : Config) (m : MatcherI) (inp : Bytes) (hbin : cfg.binary = .none)
+    (hs : cfg.stopOnNonmatch = false) (hfast : isLineByLineFast cfg m (Core.new cfg true) = true)
+    (hcand : ∀ hay i, m.findCandidateLine hay ≠ some (.confirmed i))
+    (hnone : ∀ p, p < (linesOf cfg m inp).length →
+      m.findCandidateLine (inp.drop (offsetAt (linesOf cfg m inp) p)) = none →
+      ∀ j, p ≤ j → j < (linesOf cfg m inp).length → pmLine cfg m (linesOf cfg m inp) j = false)
+    (hnofn : ∀ p i, p < (linesOf cfg m inp).length →
+      m.findCandidateLine (inp.drop (offsetAt (linesOf cfg m inp) p)) = some (.candidate i) →
+      (∃ j, p ≤ j ∧ InLine cfg.lineTerm.asByte (linesOf cfg m inp) j (offsetAt (linesOf cfg m inp) p + i) ∧
+        ∀ j', p ≤ j' → j' < j → pmLine cfg m (linesOf cfg m inp) j' = false) ∨
+      (offsetAt (linesOf cfg m inp) p + i = inp.length ∧
+        Term cfg.lineTerm.asByte (bytesAt (linesOf cfg m inp) ((linesOf cfg m inp).length - 1)) ∧
+        ∀ j, p ≤ j → j < (linesOf cfg m inp).length → pmLine cfg m (linesOf cfg m inp) j = false)) :
+    reported (sliceByLine cfg m allCont inp).events = selectedLines cfg.lineTerm.asByte (codeSel cfg m) inp :=
+  C01_fast cfg m inp hbin hs hfast
+    ⟨hnone, fun _ i _ h => absurd h (hcand _ i), hnofn⟩
+
 /-! ### The property's own notion of content
 
 Since the repair of F3 (`lines::without_terminator` under CRLF, /repo cc9628f) what the code hands to the
@@ -250,6 +272,98 @@ theorem C01_fast_safe_looks (isWord : Nat → Bool) (rcfg : Rx.Config) (pats : L
     lineSafe_of_contract L (linesOf_length cfg (bridge m shortest) inp) hlt hc (fun _ _ _ _ => trivial)
   exact C01_fast_end_to_end (Rx.lookAt isWord) rcfg pats translated accelerated optimize norm shortest m hb hnorm heng
     cfg inp hbin hs hfast hls (contentClean_byte rcfg cfg inp 10 hterm hlt)
+
+/-- **C01, fast path, end to end, no guard at all** (LF terminator, crlf off): a pattern whose only look-arounds are
+the LF line anchors (`verify_on_line` false — the only patterns that still get `Confirmed` answers since /repo
+4165f41) is line safe on EVERY input, so the fast path reports exactly the lines whose content the user's
+expression matches. -/
+theorem C01_fast_own_anchors (isWord : Nat → Bool) (rcfg : Rx.Config) (pats : List Bytes) (translated : Rx.Hir)
+    (accelerated : Bool) (optimize : Rx.Seq → Rx.Seq) (norm : Rx.Hir → Rx.Hir) (shortest : Bytes → Option Nat)
+    (m : Rx.MatcherM) (hb : rcfg.build pats translated accelerated optimize norm = .ok m)
+    (hnorm : ∀ h hay s e, Rx.Matches (Rx.lookAt isWord) (norm h) hay s e ↔ Rx.Matches (Rx.lookAt isWord) h hay s e)
+    (hopt : C11.OptimizeCert optimize m.hir ((rcfg.lineTerm.map Rx.LineTerm.bytes).getD []))
+    (heng : C11.EngineSpec (Rx.lookAt isWord) m.hir shortest)
+    (hterm : rcfg.lineTerm = some (.byte 10)) (hcrlf : rcfg.crlf = false)
+    (hv : rcfg.verifyOnLine m.hir = false)
+    (hlits : ∀ L, m.fastLits = some L → ∀ l ∈ L, l.bytes ≠ [] ∧ 10 ∉ l.bytes)
+    (cfg : Config) (inp : Bytes) (hlt : cfg.lineTerm = .byte 10) (hbin : cfg.binary = .none)
+    (hs : cfg.stopOnNonmatch = false)
+    (hfast : isLineByLineFast cfg (bridge m shortest) (Core.new cfg true) = true) :
+    reported (sliceByLine cfg (bridge m shortest) allCont inp).events =
+      selectedLines cfg.lineTerm.asByte
+        (userSel (Rx.lookAt isWord) rcfg pats translated cfg.lineTerm cfg.invertMatch) inp := by
+  have hown := Rx.allLooks_own_of_not_verify rcfg m.hir hv
+  have hsafe : Rx.allLooks Rx.safeLookLF m.hir = true :=
+    Rx.allLooks_mono (by intro k hk; cases k <;> simp_all [Rx.Config.isOwnAnchor, Rx.safeLookLF]) m.hir hown
+  exact C01_fast_safe_looks isWord rcfg pats translated accelerated optimize norm shortest m hb hnorm hopt heng hterm
+    hsafe hlits cfg inp hlt hbin hs hfast
+
+/-- **C01, fast path, end to end, for a matcher built with `verify_on_line`** (any look-arounds; /repo 4165f41): the
+searcher re-judges every candidate line on its own, so of context independence only the half "a match of the line alone
+is a match in the buffer" (`hlift`, on the windows that pass `G`) is needed — nothing about matches the buffer search
+finds because it sees beyond the line (the former findings F1 and F24). -/
+theorem C01_fast_verify_on_line (isWord : Nat → Bool) (rcfg : Rx.Config) (pats : List Bytes) (translated : Rx.Hir)
+    (accelerated : Bool) (optimize : Rx.Seq → Rx.Seq) (norm : Rx.Hir → Rx.Hir) (shortest : Bytes → Option Nat)
+    (m : Rx.MatcherM) (hb : rcfg.build pats translated accelerated optimize norm = .ok m)
+    (hnorm : ∀ h hay s e, Rx.Matches (Rx.lookAt isWord) (norm h) hay s e ↔ Rx.Matches (Rx.lookAt isWord) h hay s e)
+    (hopt : C11.OptimizeCert optimize m.hir ((rcfg.lineTerm.map Rx.LineTerm.bytes).getD []))
+    (heng : C11.EngineSpec (Rx.lookAt isWord) m.hir shortest)
+    (hterm : rcfg.lineTerm = some (.byte 10))
+    (hv : m.verifyOnLine = true)
+    (hlits : ∀ L, m.fastLits = some L → ∀ l ∈ L, l.bytes ≠ [] ∧ 10 ∉ l.bytes)
+    (G : Bytes → Nat → Nat → Prop)
+    (hlift : ∀ (hay : Bytes) (w c : Nat), G hay w c → (w = 0 ∨ hay[w - 1]? = some 10) →
+      (w + c = hay.length ∨ hay[w + c]? = some 10) → w + c ≤ hay.length → ∀ s e, w ≤ s → s ≤ e → e ≤ w + c →
+      Rx.Matches (Rx.lookAt isWord) m.hir ((hay.drop w).take c) (s - w) (e - w) →
+      Rx.Matches (Rx.lookAt isWord) m.hir hay s e)
+    (cfg : Config) (inp : Bytes) (hlt : cfg.lineTerm = .byte 10) (hbin : cfg.binary = .none)
+    (hs : cfg.stopOnNonmatch = false)
+    (hfast : isLineByLineFast cfg (bridge m shortest) (Core.new cfg true) = true)
+    (hG : WinGuard 10 inp (linesOf cfg (bridge m shortest) inp) G) :
+    reported (sliceByLine cfg (bridge m shortest) allCont inp).events =
+      selectedLines cfg.lineTerm.asByte
+        (userSel (Rx.lookAt isWord) rcfg pats translated cfg.lineTerm cfg.invertMatch) inp := by
+  have hasb : cfg.lineTerm.asByte = 10 := by rw [hlt]; rfl
+  have L : Layout 10 inp (linesOf cfg (bridge m shortest) inp) := by
+    have := layout_splitLines cfg.lineTerm.asByte inp (lineSel cfg (bridge m shortest))
+    unfold linesOf
+    rw [hasb] at this ⊢; exact this
+  have hc := bridge_contract_verify isWord rcfg pats translated accelerated optimize norm shortest m hb hnorm hopt heng
+    hterm hlits hv G hlift
+  have hls : LineSafe cfg (bridge m shortest) inp (linesOf cfg (bridge m shortest) inp) :=
+    lineSafe_of_contract L (linesOf_length cfg (bridge m shortest) inp) hlt hc hG
+  exact C01_fast_end_to_end (Rx.lookAt isWord) rcfg pats translated accelerated optimize norm shortest m hb hnorm heng
+    cfg inp hbin hs hfast hls (contentClean_byte rcfg cfg inp 10 hterm hlt)
+
+/-- **C01, fast path, end to end, for a matcher built with `verify_on_line`, no guard** (LF terminator): every
+look-around is an LF line anchor or a word assertion (ASCII or Unicode; that is all a pattern can have when the matcher
+still announces its line terminator with crlf off — `C01Regex.fast_path_looks`). The searcher judges every candidate
+line on its own and a match of the line alone is always a match in the buffer (`C01Regex.LineSafeB_lift`, also for lines
+that start with UTF-8 continuation bytes), so the fast path reports exactly the lines whose content the user's
+expression matches, on EVERY input — the former findings F1 and F24 cannot occur. -/
+theorem C01_fast_verify_on_line_looks (isWord : Nat → Bool) (hw : isWord 10 = false) (rcfg : Rx.Config)
+    (pats : List Bytes) (translated : Rx.Hir)
+    (accelerated : Bool) (optimize : Rx.Seq → Rx.Seq) (norm : Rx.Hir → Rx.Hir) (shortest : Bytes → Option Nat)
+    (m : Rx.MatcherM) (hb : rcfg.build pats translated accelerated optimize norm = .ok m)
+    (hnorm : ∀ h hay s e, Rx.Matches (Rx.lookAt isWord) (norm h) hay s e ↔ Rx.Matches (Rx.lookAt isWord) h hay s e)
+    (hopt : C11.OptimizeCert optimize m.hir ((rcfg.lineTerm.map Rx.LineTerm.bytes).getD []))
+    (heng : C11.EngineSpec (Rx.lookAt isWord) m.hir shortest)
+    (hterm : rcfg.lineTerm = some (.byte 10))
+    (hv : m.verifyOnLine = true)
+    (hsafe : Rx.allLooks (fun k => Rx.safeLookLF k || Rx.safeLookU k) m.hir = true)
+    (hlits : ∀ L, m.fastLits = some L → ∀ l ∈ L, l.bytes ≠ [] ∧ 10 ∉ l.bytes)
+    (cfg : Config) (inp : Bytes) (hlt : cfg.lineTerm = .byte 10) (hbin : cfg.binary = .none)
+    (hs : cfg.stopOnNonmatch = false)
+    (hfast : isLineByLineFast cfg (bridge m shortest) (Core.new cfg true) = true) :
+    reported (sliceByLine cfg (bridge m shortest) allCont inp).events =
+      selectedLines cfg.lineTerm.asByte
+        (userSel (Rx.lookAt isWord) rcfg pats translated cfg.lineTerm cfg.invertMatch) inp := by
+  refine C01_fast_verify_on_line isWord rcfg pats translated accelerated optimize norm shortest m hb hnorm hopt heng hterm
+    hv hlits (fun _ _ _ => True) ?_ cfg inp hlt hbin hs hfast (fun _ _ _ _ => trivial)
+  intro hay w c _ hbefore hafter hle s e h1 h2 h3 hm
+  have hl : Rx.IsLine 10 hay w (w + c) := ⟨hle, Nat.le_add_right _ _, hbefore, hafter⟩
+  have hsl : Rx.slice hay w (w + c) = (hay.drop w).take c := by simp [Rx.slice]
+  exact C01Regex.LineSafeB_lift isWord hw m.hir hsafe hay w (w + c) hl s e h1 h2 (by rw [hsl]; exact hm)
 
 /-- input guard of the Unicode variant: no line's content starts with a UTF-8 continuation byte
 (true of every valid UTF-8 text; finding F24 is exactly the excluded case) -/
